@@ -831,7 +831,32 @@ def scratch_base():
     base = os.environ.get('VERIF_SCRATCH')
     if not base:
         base = '/dev/shm' if os.path.isdir('/dev/shm') and os.access('/dev/shm', os.W_OK) else tempfile.gettempdir()
-    return os.path.join(base, 'pysmi-verif-%d' % os.getuid())
+    base = os.path.join(base, 'pysmi-verif-%d' % os.getuid())
+    run = os.environ.get('VERIF_SCRATCH_RUN')
+    if run:
+        base = os.path.join(base, run)
+    return base
+
+
+def begin_run():
+    """Called by the parent of a pool: one scratch directory per run, leftovers of dead runs swept."""
+    os.environ.pop('VERIF_SCRATCH_RUN', None)
+    top = scratch_base()
+    try:
+        for d in R.listdir(top):
+            if d.startswith('run') or d.startswith('p'):
+                pid = d[3:] if d.startswith('run') else d[1:]
+                if pid.isdigit() and not os.path.exists('/proc/%s' % pid):
+                    R.rmtree(os.path.join(top, d), ignore_errors=True)
+    except OSError:
+        pass
+    os.environ['VERIF_SCRATCH_RUN'] = 'run%d' % os.getpid()
+    return scratch_base()
+
+
+def end_run():
+    if os.environ.get('VERIF_SCRATCH_RUN') == 'run%d' % os.getpid():
+        R.rmtree(scratch_base(), ignore_errors=True)
 
 
 _rootn = [0]
